@@ -207,7 +207,9 @@ func (c *Ctx) Unknown(construct string, pos token.Pos, format string, args ...an
 // Check is sugar: discharged when ok, violated otherwise.
 func (c *Ctx) Check(ok bool, construct string, pos token.Pos, format string, args ...any) {
 	if ok {
-		c.OK(construct, pos, format, args...)
+		// the message describes the failure; a discharged obligation only
+		// records that the rule holds at this site
+		c.OK(construct, pos, "holds")
 	} else {
 		c.Bad(construct, pos, format, args...)
 	}
